@@ -36,7 +36,7 @@ func init() {
 		Header:         "From ZenoV Require Import Lib.Harness Safe.GoOps Safe.Dispatch Safe.SafeHarness.\nOpen Scope Z_scope.\n",
 		CaseType:       "dcase",
 		Footer:         "\nDefinition DIFF := Eval vm_compute in ddiffs cases.\nPrint DIFF.\nDefinition MON := Eval vm_compute in dmons cases.\nPrint MON.\n",
-		Rule:           "one case = an item (state, depth chain, redirects, hops) x presence of response / body / MIME / parsed URL x status code x Content-Type x Server x URL shape x body kind x Location header (absent, relative, unparsable) x configuration (max redirects, max hops, assets capture, domains crawl); in a third of the cases the item is prepared by the REAL archiver.ProcessBody from an http.Response (1xx / 204 / 304, empty body, http.NoBody) instead of by hand; run through the real postprocessItem with recover(); distinct by input text; non-trivial when the item got children (assets or a redirection target) or outlinks, or the call panicked",
+		Rule:           "one case = an item (state, depth chain, redirects, hops) x presence of response / body / MIME / parsed URL x status code x Content-Type x Server x URL shape x body kind (incl. pages, sitemaps and texts whose links the domains-crawl matcher's URL parser refuses) x Location header (absent, relative, unparsable) x configuration (max redirects, max hops, assets capture, domains crawl: off / plain domains only / stored URLs only / regular expressions only / mixed / enabled and empty; the process-global matcher is reset for every case); in a third of the cases the item is prepared by the REAL archiver.ProcessBody from an http.Response (1xx / 204 / 304, empty body, http.NoBody) instead of by hand; run through the real postprocessItem with recover(); distinct by input text; non-trivial when the item got children (assets or a redirection target) or outlinks, or the call panicked",
 		Setup:          func() { config.InitConfig() },
 		Gen:            genDispatch,
 		Exec:           execDispatch,
@@ -70,6 +70,15 @@ var dispBodies = []string{
 	`{"kind":"Listing","data":{"dist":3,"modhash":"","children":null}}`,
 	// 12 reddit listing with a child but dist 0
 	`{"kind":"Listing","data":{"dist":0,"children":[{"kind":"t3","data":{"permalink":"/r/x/comments/2/t/","url":"http://i.example/p.png"}}]}}`,
+	// 13 html whose links are texts the domains-crawl matcher's URL parser (fasturl) refuses: non-ASCII query, a bad
+	// escape kept raw, a URL inside the query, a six-digit port - next to ones it accepts
+	"<html><body><a href=\"/plain\">p</a><a href=\"?q=caf\u00e9\">s</a><a href=\"%am-i\">e</a><a href=\"http://dc.example/a?u=http://b.example/c\">u</a>" +
+		"<a href=\"http://h.example:123456/\">port</a><a href=\"https://cdn.example.net/file\">cdn</a><a href=\"https://sub.dc.example/x.pdf\">sub</a></body></html>",
+	// 14 sitemap with such locations
+	"<?xml version=\"1.0\" encoding=\"UTF-8\"?><urlset xmlns=\"http://www.sitemaps.org/schemas/sitemap/0.9\"><url><loc>http://dc.example/\u00e9t\u00e9</loc></url><url><loc>http://ex\u00e4mple.example/</loc></url>" +
+		"<url><loc>https://cdn.example.net/a?next=/b</loc></url><url><loc>http://dc.example/ok</loc></url></urlset>",
+	// 15 text with such URLs
+	"see https://t.example/a?x=/y and https://dc.example/\u00e9 and https://cdn.example.net/caf\u00e9.pdf and http://h.example/ok\n",
 }
 
 var dispCTs = []string{"", "text/html; charset=utf-8", "application/json", "application/xml", "text/xml", "application/vnd.apple.mpegurl",
@@ -121,10 +130,10 @@ func genDispatch(r *Rng, i int, tier string) string {
 	kind := r.Intn(len(dispBodies))
 	ct := r.Intn(len(dispCTs))
 	if r.Chance(50) { // consistent Content-Type
-		ct = []int{1, 2, 3, 4, 5, 3, 7, 9, 0, 2, 2, 2, 2}[kind]
+		ct = []int{1, 2, 3, 4, 5, 3, 7, 9, 0, 2, 2, 2, 2, 1, 4, 7}[kind]
 	}
 	urlIdx := r.Intn(len(dispURLs))
-	if kind >= 9 && r.Chance(60) { // API answers mostly on the URLs that route to the site-specific arms
+	if kind >= 9 && kind <= 12 && r.Chance(60) { // API answers mostly on the URLs that route to the site-specific arms
 		urlIdx = []int{8, 8, 4, 5, 7}[r.Intn(5)]
 	}
 	chain := ""
@@ -154,8 +163,18 @@ func genDispatch(r *Rng, i int, tier string) string {
 	if r.Chance(50) {
 		loc = r.Intn(len(dispLocs))
 	}
+	body, red, hops, maxred, maxhops, noassets := present(75), r.Intn(4), r.Intn(3), r.Intn(4), r.Intn(3), present(20)
+	// domains crawl: off, or one of the configurations of dcConfigs (plain domains only, stored URLs only, regular
+	// expressions only, mixed, enabled with nothing stored); more often on for the bodies whose links the matcher's parser refuses
+	dc := 0
+	if r.Chance(25) || (kind >= 13 && r.Chance(50)) {
+		dc = 1
+		if r.Chance(75) {
+			dc = dcPick(r)
+		}
+	}
 	return fmt.Sprintf("st=%d resp=%d code=%d body=%d mime=%d parsed=%d chain=%s red=%d hops=%d maxred=%d maxhops=%d noassets=%d dc=%d kind=%d ct=%d srv=%d url=%d prep=%d nb=%d loc=%d",
-		st, hasResp, resp, present(75), mime, parsed, "s"+chain, r.Intn(4), r.Intn(3), r.Intn(4), r.Intn(3), present(20), present(25), kind, ct, r.Intn(len(dispServers)), urlIdx, prep, nb, loc)
+		st, hasResp, resp, body, mime, parsed, "s"+chain, red, hops, maxred, maxhops, noassets, dc, kind, ct, r.Intn(len(dispServers)), urlIdx, prep, nb, loc)
 }
 
 type dispSpec struct {
@@ -165,6 +184,7 @@ type dispSpec struct {
 	prep, nobody                            bool // prepared by the real ProcessBody; Body is http.NoBody
 	loc, maxhops                            int
 	noassets, dc                            bool
+	dcIdx                                   int // index into dcConfigs (0 = domains crawl off)
 }
 
 // buildItem makes the item at the end of a parent chain ('c' = the parent got children,
@@ -261,7 +281,10 @@ func execDispatch(in string) Result {
 	s := dispSpec{st: atoi("st"), code: atoi("code"), red: atoi("red"), hops: atoi("hops"), kind: atoi("kind") % len(dispBodies),
 		ct: atoi("ct") % len(dispCTs), srv: atoi("srv") % len(dispServers), url: atoi("url") % len(dispURLs),
 		resp: atoi("resp") == 1, body: atoi("body") == 1, mime: atoi("mime") == 1, parsed: atoi("parsed") == 1, chain: kv["chain"],
-		prep: atoi("prep") == 1, nobody: atoi("nb") == 1, loc: atoi("loc"), maxhops: atoi("maxhops"), noassets: atoi("noassets") == 1, dc: atoi("dc") == 1}
+		prep: atoi("prep") == 1, nobody: atoi("nb") == 1, loc: atoi("loc"), maxhops: atoi("maxhops"), noassets: atoi("noassets") == 1, dcIdx: atoi("dc")}
+	if s.dcIdx < 0 || s.dcIdx >= len(dcConfigs) {
+		s.dcIdx = 1
+	}
 	if s.prep { // nothing is knocked out by hand: what is set is what ProcessBody set
 		s.st, s.resp, s.parsed = 2, true, true
 	}
@@ -273,11 +296,10 @@ func execDispatch(in string) Result {
 	}
 	c := config.Get()
 	c.MaxRedirect, c.MaxHops, c.DisableAssetsCapture = atoi("maxred"), atoi("maxhops"), atoi("noassets") == 1
-	dc := atoi("dc") == 1
-	domainscrawl.Reset()
-	if dc {
-		domainscrawl.AddElements([]string{"dc.example"})
-	}
+	// the matcher is process-global: reset and configured anew for every case
+	dc := applyDC(s.dcIdx)
+	s.dc = dc
+	defer domainscrawl.Reset()
 
 	// oracle values from complete copies
 	xAssets, xOutlinks := "None", "None"
@@ -380,7 +402,7 @@ func execDispatch(in string) Result {
 		tags = append(tags, "code:other")
 	}
 	if dc {
-		tags = append(tags, "dc")
+		tags = append(tags, "dc", "dc:"+dcConfigs[s.dcIdx].class)
 	}
 	if s.prep {
 		if prepErr {
